@@ -91,6 +91,11 @@ def _greedy_join_hook(ex, st, name, base, args, kwargs):
     return NotImplemented
 
 
+def _bag_add(ex, st, obj, *a, **k):
+    st.env['ADDED_TRANSCRIPT'] = a[0]          # what is put into the bag (ghost record)
+    return None
+
+
 _KEPT = '(argmaxes[%(t)s] != self._blank_ind and (%(t)s == 0 or argmaxes[%(t)s] != argmaxes[%(t)s - 1]))'
 CONTRACTS[(DPATH, 'GreedyDecoder.__call__')] = Contract(
     params={'self': 'obj:GreedyDecoder', 'logits': 'nd2:real', 'max_unnormalization': 'real'},
@@ -101,8 +106,8 @@ CONTRACTS[(DPATH, 'GreedyDecoder.__call__')] = Contract(
             'opaque_model:logsumexp': lambda ex, st, a, k: z3.Real('LSE_of_maxes'),
             'lib:bag_of_hypotheses.BagOfHypotheses': lambda ex, st, *a, **k: ObjRef(z3.Int(fresh_name('bag')), 'Bag'),
             'lib:bag_of_hypotheses.logsumexp': lambda ex, st, *a, **k: z3.Real('LSE_of_maxes'),
-            'method:add': lambda ex, st, obj, *a, **k: None},
-    theory=lambda ex, st: ({'MAXDEV': z3.Real('MAXDEV_logits')}, []),
+            'method:add': _bag_add},
+    theory=lambda ex, st: ({'MAXDEV': z3.Real('MAXDEV_logits'), 'GREEDY_DECODED': z3.Const('GREEDY_decoded', Val)}, []),
     raises={'ValueError': 'MAXDEV > max_unnormalization'}, ensures_exc={'ValueError': 'MAXDEV > max_unnormalization'},
     ghost_at={'decoded = self.symbol_separator.join(': [
         # the joined symbols are those of the frames that survive the CTC collapse of the arg-max path, in frame order:
@@ -111,7 +116,8 @@ CONTRACTS[(DPATH, 'GreedyDecoder.__call__')] = Contract(
         'assert forall(lambda j, j2: implies(0 <= j and j < j2 and j2 < JLEN, JSRC(j) < JSRC(j2)))',
         'assert forall(lambda t: implies(0 <= t and t < logits.shape[0] and ' + _KEPT % {'t': 't'} + ', exists(lambda j: 0 <= j and j < JLEN and JSRC(j) == t)))',
     ]},
-    ensures=['0 <= JLEN and JLEN <= logits.shape[0]'],
+    # the transcript put into the returned bag is that join, untouched
+    ensures=['0 <= JLEN and JLEN <= logits.shape[0]', 'ADDED_TRANSCRIPT == decoded', 'decoded == GREEDY_DECODED'],
 )
 
 KEYS = [(EPATH, 'greedy_decode_ctc'), (DPATH, 'GreedyDecoder.__call__')]
